@@ -147,7 +147,7 @@ PROPS['C01'] = dict(
     units=real_units('c01', 'c01_sym.cpp'),
     runs=dict(
         quick=[dict(unit='c01_d', cases=3000, workers=2), dict(unit='c01_f', cases=3000, workers=1), dict(unit='c01_l', cases=3000, workers=1)],
-        thorough=[dict(unit='c01_d', cases=40000, workers=8), dict(unit='c01_f', cases=40000, workers=4), dict(unit='c01_l', cases=40000, workers=4)],
+        thorough=[dict(unit='c01_d', cases=40000, workers=8, set=dict(nmax=100)), dict(unit='c01_f', cases=40000, workers=4, set=dict(nmax=60)), dict(unit='c01_l', cases=40000, workers=4, set=dict(nmax=60))],
     ),
     min=dict(quick=dict(cases=10000, nontrivial=4000, classes={'partial_convergence': 20, 'history_with_2+_computes': 500, 'compute_without_fresh_init': 300, 'breakdown_seen_by_observer': 100,
                                                              'form/sparse_wrapper': 500, 'form/user_functor': 500, 'start/eigenvector': 100}),
